@@ -45,6 +45,9 @@ pub const ATTRS: &[&str] = &[
     // same attribute path as another entry, different arguments
     "#[serde(deny_unknown_fields)]",
     "#[codec(dumb_trait_bound)]",
+    // differ only by a blank inside a string literal
+    "#[serde(alias = \"asset id\")]",
+    "#[serde(alias = \"assetid\")]",
 ];
 pub const UNKNOWN_PATHS: &[&str] = &["unknown::Path1", "x::Y", "absent::from::registry::Z", "Lonely"];
 
